@@ -8,6 +8,7 @@ package builder
 // Injected into package builder through an overlay; nothing is written to /repo.
 
 import (
+	"bytes"
 	"errors"
 
 	"github.com/mna/pigeon/ast"
@@ -305,6 +306,43 @@ func c07Describe(rules []*c07Rule) string {
 
 const c07Slots = 2
 
+// c07Build: what the user sees. The completed grammar (every slot is forced by
+// now) is handed to the real BuildParser with default options, i.e. without
+// -support-left-recursion: it must be rejected when it has a first-call cycle
+// and accepted when it has none.
+func c07Build(rules []*c07Rule, want, approx bool) {
+	symSkip("(*github.com/mna/pigeon/builder.builder).writeStaticCode")
+	g := ast.NewGrammar(ast.Pos{})
+	for i, cr := range rules {
+		seq := ast.NewSeqExpr(ast.Pos{})
+		for _, sl := range cr.slots {
+			seq.Exprs = append(seq.Exprs, c07Make(sl.d))
+		}
+		r := ast.NewRule(ast.Pos{}, ast.NewIdentifier(ast.Pos{}, c07Names[i]))
+		r.Expr = seq
+		g.Rules = append(g.Rules, r)
+	}
+	nr := ast.NewRule(ast.Pos{}, ast.NewIdentifier(ast.Pos{}, "N"))
+	no := ast.NewZeroOrOneExpr(ast.Pos{})
+	no.Expr = ast.NewLitMatcher(ast.Pos{}, "n")
+	nr.Expr = no
+	g.Rules = append(g.Rules, nr)
+	tr := ast.NewRule(ast.Pos{}, ast.NewIdentifier(ast.Pos{}, "T"))
+	tc := ast.NewChoiceExpr(ast.Pos{})
+	th := ast.NewThrowExpr(ast.Pos{})
+	th.Label = "l"
+	tc.Alternatives = []ast.Expression{ast.NewLitMatcher(ast.Pos{}, "b"), th}
+	tr.Expr = tc
+	g.Rules = append(g.Rules, tr)
+	var buf bytes.Buffer
+	berr := BuildParser(&buf, g)
+	if want {
+		symAssert(berr != nil, "C07: BuildParser without -support-left-recursion accepted a grammar with a first-call cycle")
+	} else if !approx {
+		symAssert(berr == nil, "C07: BuildParser rejected a grammar without a first-call cycle")
+	}
+}
+
 // Harness_C07a: n fixes the first slot of rule A (splits the family into
 // independent jobs); every other slot is chosen lazily.
 func Harness_C07a(n int) {
@@ -351,6 +389,7 @@ func Harness_C07a(n int) {
 		// must then really be left-recursive
 		symAssert(errors.Is(err, ErrNoLeader), "C07: unexpected error from PrepareGrammar")
 		symAssert(want || approx, "C07: left-recursion error for a grammar without a first-call cycle")
+		c07Build(rules, want, approx)
 		symReach("end")
 		return
 	}
@@ -360,5 +399,6 @@ func Harness_C07a(n int) {
 	} else if !approx {
 		symAssert(!have, "C07: grammar without a first-call cycle reported as left-recursive")
 	}
+	c07Build(rules, want, approx)
 	symReach("end")
 }
